@@ -73,7 +73,10 @@ func (d *baseTypeFieldTextDecoder) Decode(req *protocol.Request, params param.Pa
 				defaultValue = tagInfo.Default
 				found := checkRequireJSON(req, tagInfo)
 				if found {
-					err = nil
+					// a tag that is not itself required settles an earlier 'required' only if the body has the value
+					if tagInfo.Required || keyExist(req, tagInfo) {
+						err = nil
+					}
 				} else {
 					err = fmt.Errorf("'%s' field is a 'required' parameter, but the request body does not have this parameter '%s'", tagInfo.Value, tagInfo.JSONName)
 				}
